@@ -153,6 +153,8 @@ def main(argv=None):
 
     known = load_known(prop)
     os.makedirs(os.path.join(ROOT, 'replays', prop), exist_ok=True)
+    for old in os.listdir(os.path.join(ROOT, 'replays', prop)):
+        os.remove(os.path.join(ROOT, 'replays', prop, old))
     n_ob = n_proved = 0
     violations, known_hits, undecided, errors = [], [], [], []
     functions, samples, backends = [], [], {}
